@@ -7,6 +7,7 @@ operations must be an instance of the model's program (a uniquely named file cre
 else left); (ii) real schedules: N processes (below and above the core count), staggered starts, mixed GFF3/GTF inputs,
 one shared temp dir - each database equals the solitary run's, directory empty afterwards; N concurrent readers.
 """
+import json
 import multiprocessing
 import os
 import subprocess
@@ -14,8 +15,10 @@ import sys
 import time
 
 import common
+import conctrace
 import dbside
 import gen_db
+import worldside
 
 TRUSTED = ["the OS scheduler, sqlite file locking and tempfile.NamedTemporaryFile uniqueness (O_EXCL) are runtime "
            "behaviour: sampled, not modelled beyond 'mkstemp returns an unused name'"]
@@ -24,28 +27,79 @@ LEANCHECKER_MODULES = ["GffProofs.Props.C20"]
 WORKER = r'''
 import sys, os, time, json
 sys.path.insert(0, %(harness)r)
-os.environ["TMPDIR"] = %(tmp)r
+job = json.loads(sys.argv[1])
+os.environ["TMPDIR"] = job["tmp"]
 import tempfile
-tempfile.tempdir = %(tmp)r
+tempfile.tempdir = job["tmp"]
 import warnings
 warnings.simplefilter("ignore")
 sys.stderr = open(os.devnull, "w")
-import gffutils, dbside
-mode, inp, out, delay = sys.argv[1], sys.argv[2], sys.argv[3], float(sys.argv[4])
-time.sleep(delay)
-if mode == "import":
-    db = gffutils.create_db(inp, out, force=True, merge_strategy="create_unique")
-    db.conn.commit()
-    print(dbside.dump(gffutils.FeatureDB(out)))
+import gffutils, dbside, conctrace
+
+
+def wait_for(paths, limit=60.0):
+    t0 = time.time()
+    while time.time() - t0 < limit:
+        if any(os.path.exists(p) for p in paths):
+            return True
+        time.sleep(0.002)
+    return False
+
+
+class PausingTextFactory(object):
+    # decodes like str, but blocks once, on the first value sqlite hands it (a public create_db argument)
+    def __init__(self, in_window, go_on):
+        self.in_window, self.go_on, self.fired = in_window, go_on, False
+
+    def __call__(self, b):
+        if not self.fired:
+            self.fired = True
+            open(self.in_window, "w").close()
+            wait_for([self.go_on])
+        return b.decode("utf-8")
+
+
+time.sleep(job.get("delay", 0))
+if job["mode"] == "import":
+    kwargs = dict(force=True, merge_strategy="create_unique")
+    kwargs.update(job.get("kwargs", {}))
+    if job.get("pause"):
+        kwargs["text_factory"] = PausingTextFactory(*job["pause"])
+    if job.get("wait_for"):
+        wait_for(job["wait_for"])
+    trace = conctrace.Trace(job["tmp"]) if job.get("trace") else None
+    try:
+        try:
+            db = gffutils.create_db(job["inp"], job["out"], **kwargs)
+            db.conn.commit()
+            if trace is not None:
+                trace.mark("done")
+            print(dbside.dump(gffutils.FeatureDB(job["out"])))
+        except Exception as ex:
+            print("raised %%s: %%s" %% (type(ex).__name__, ex))
+    finally:
+        if trace is not None:
+            with open(job["trace"], "w") as fh:
+                json.dump(trace.stop(), fh)
+        if job.get("done_flag"):
+            open(job["done_flag"], "w").close()
 else:
-    db = gffutils.FeatureDB(inp)
+    db = gffutils.FeatureDB(job["inp"])
     n = len(list(db.all_features()))
     print(dbside.dump(db))
 '''
 
 
+def job_args(py, worker, **job):
+    return [py, worker, json.dumps(job)]
+
+
+NOINFER = {"disable_infer_genes": True, "disable_infer_transcripts": True}
+
+
 def make_inputs(r, scratch, k):
-    paths = []
+    """import jobs: (path, extra create_db arguments)"""
+    jobs = []
     for i in range(k):
         if i % 2 == 0:
             nodes = gen_db.rand_gff3_graph(r, n=r.randrange(5, 40), dangling=True)
@@ -53,53 +107,53 @@ def make_inputs(r, scratch, k):
             p = os.path.join(scratch, "in%d.gff3" % i)
         else:
             recs = []
-            while not recs:
+            while not any(x["ftype"] == "exon" for x in recs):
                 recs = gen_db.rand_gtf_forest(r, ngenes=r.randrange(1, 4))
             lines = gen_db.gtf_lines(recs)
             p = os.path.join(scratch, "in%d.gtf" % i)
         dbside.write_lines(p, lines)
-        paths.append(p)
+        jobs.append((p, {}))
+    # GTF files that carry their gene and transcript lines, imported the documented way for such files: both
+    # inference steps disabled (the importer returns early from _update_relations)
+    for i in range(2):
+        recs = []
+        while not any(x["ftype"] == "exon" for x in recs):
+            recs = gen_db.rand_gtf_forest(r, explicit=True, ngenes=r.randrange(1, 4))
+        p = os.path.join(scratch, "in_explicit%d.gtf" % i)
+        dbside.write_lines(p, gen_db.gtf_lines(recs))
+        jobs.append((p, dict(NOINFER)))
+    # ... and with one of the two steps disabled
+    jobs.append((jobs[1][0], {"disable_infer_genes": True}))
+    jobs.append((jobs[3][0], {"disable_infer_transcripts": True}))
     # a GTF without any exon line (nothing to infer): the intermediate file must still be removed
     p = os.path.join(scratch, "in_cdsonly.gtf")
     dbside.write_lines(p, [gen_db.gtf_line("chr1", "CDS", 10 + 50 * i, 40 + 50 * i, "+", [("gene_id", ["G"]), ("transcript_id", ["T%d" % (i % 2)])])
                            for i in range(6)])
-    paths.append(p)
-    return paths
+    jobs.append((p, {}))
+    return jobs
 
 
-def trace_conformance(ctx, res, path, tag):
-    """run one import in-process under an audit hook; check the temp-file protocol"""
+def trace_conformance(ctx, res, path, tag, kwargs=None, expect_tempfile=True):
+    """run one import in-process under an audit hook; check the temp-file protocol.  returns the recorded trace
+    (conctrace events) and the final listing of the import's temp directory"""
     import tempfile
     import gffutils
     tmpdir = os.path.join(ctx.scratch, "trace_" + tag)
     os.makedirs(tmpdir, exist_ok=True)
-    events = []
-
-    def hook(event, args):
-        if event == "open":
-            p = args[0]
-            if isinstance(p, str) and os.path.dirname(os.path.abspath(p)) == tmpdir:
-                events.append(("open", os.path.basename(p), args[1]))
-        elif event in ("os.remove", "os.unlink"):
-            p = args[0]
-            if isinstance(p, str) and os.path.dirname(os.path.abspath(p)) == tmpdir:
-                events.append(("unlink", os.path.basename(p)))
-        elif event == "tempfile.mkstemp":
-            events.append(("mkstemp", os.path.basename(str(args[0]))))
     old = tempfile.tempdir
     tempfile.tempdir = tmpdir
     os.environ["TMPDIR"] = tmpdir
-    if not getattr(trace_conformance, "_installed", False):
-        sys.addaudithook(lambda e, a: trace_conformance._hook(e, a) if trace_conformance._hook else None)
-        trace_conformance._installed = True
-    trace_conformance._hook = hook
+    trace = conctrace.Trace(tmpdir)
     try:
         db = gffutils.create_db(path, os.path.join(ctx.scratch, "trace_%s.db" % tag), force=True,
-                                merge_strategy="create_unique")
+                                merge_strategy="create_unique", **(kwargs or {}))
+        trace.mark("done")
     finally:
-        trace_conformance._hook = None
+        raw = trace.stop()
         tempfile.tempdir = old
         os.environ["TMPDIR"] = ctx.scratch
+    events = [(e["kind"], e["name"], e["mode"]) if e["kind"] == "open" else (e["kind"], e["name"])
+              for e in raw if e["kind"] != "done"]
     left = os.listdir(tmpdir)
     names = sorted(set(e[1] for e in events if e[0] in ("open", "unlink")))
     ok = True
@@ -114,58 +168,97 @@ def trace_conformance(ctx, res, path, tag):
         unl = [i for i, (k, m) in enumerate(kinds) if k == "unlink"]
         if not (wrote and read and len(unl) == 1 and unl[0] == len(kinds) - 1):
             ok, why = False, "temp file %r does not follow create -> write -> read -> unlink: %r" % (nm, kinds)
-    if not names:
+    if not names and expect_tempfile:
         ok, why = False, "no temp file operation was observed (the model's program has one per import)"
     res.extra.setdefault("trace_conformance", {})[tag] = {"events": [list(e) for e in events][:12], "conforms": ok}
     if not ok:
         res.oracle_failures.append(("temp-file protocol of a single import deviates from the model's program: " + why,
-                                    {"input": path, "events": [list(e) for e in events][:20]}))
+                                    {"input": path, "arguments": kwargs or {}, "events": [list(e) for e in events][:20]}))
     res.evaluations += 1
-    return names
+    return raw, left
+
+
+def conc_case(label, traces, payloads, dir0, final):
+    """one replay of real traces through the model: (label, protocol command, expected reply)"""
+    schedule, views, outputs, finished = conctrace.schedule_of(traces, [f for f, _ in final], set(dir0))
+    cmd = worldside.cmd_conc(payloads, dir0, schedule)
+    want = "ok %s %s %s %s" % (";".join("%s/%s" % (worldside.enc_names(a), worldside.enc_names(h)) for a, h in views) or "_",
+                               worldside.enc_dir(dict(final)),
+                               ",".join(common.enc(o) for o in outputs) if outputs else "_", "1" if finished else "0")
+    return label, cmd, want, schedule
+
+
+def read_dir(d):
+    out = []
+    for f in sorted(os.listdir(d)):
+        try:
+            with open(os.path.join(d, f)) as fh:
+                out.append((f, fh.read()))
+        except OSError:
+            out.append((f, ""))
+    return out
+
+
+FOREIGN = {"foreign.gffutils": "someone else's file\n"}
 
 
 def run(ctx):
     res = common.Result("C20")
     r = ctx.rng("c20")
     res.rule = ("process counts 2, cores/2, cores, 2 x cores (quick: up to 12; thorough: up to 2 x cores, three rounds) with "
-                "staggered start offsets 0-30 ms, mixed GFF3/GTF inputs of 5-40 lines, separate outputs, one shared temp "
-                "dir; then 2-8 concurrent readers per database. non-trivial = distinct (round, process) whose import goes "
+                "staggered start offsets 0-30 ms, mixed GFF3/GTF inputs of 5-40 lines (GTF also with one or both inference "
+                "steps disabled), separate outputs, one shared temp dir; forced interleavings (one import parked between "
+                "writing and re-reading its intermediate file while another import runs to completion); then 2-8 "
+                "concurrent readers per database. non-trivial = distinct (round, process) whose import goes "
                 "through the temp-file pass")
     ncpu = multiprocessing.cpu_count()
     worker = os.path.join(ctx.scratch, "c20_worker.py")
     shared = os.path.join(ctx.scratch, "shared_tmp")
     os.makedirs(shared, exist_ok=True)
     with open(worker, "w") as fh:
-        fh.write(WORKER % {"harness": os.path.join(common.VERIF, "harness"), "tmp": shared})
+        fh.write(WORKER % {"harness": os.path.join(common.VERIF, "harness")})
     py = sys.executable
     inputs = make_inputs(r, ctx.scratch, 8)
-    # (i) trace conformance
-    trace_conformance(ctx, res, inputs[0], "gff3")
-    trace_conformance(ctx, res, inputs[1], "gtf")
-    trace_conformance(ctx, res, inputs[-1], "gtf_without_exons")
+    conc = []           # (label, command, expected reply, schedule) for the Conc correspondence
+    # (i) trace conformance, and the same traces as a sequential three-process schedule of the model
+    seq = [(inputs[0], "gff3"), (inputs[1], "gtf"), (inputs[-1], "gtf_without_exons"), (inputs[-3], "gtf_infer_transcripts_only")]
+    traces = [trace_conformance(ctx, res, p, tag, kw)[0] for (p, kw), tag in seq]
+    again = [trace_conformance(ctx, res, p, tag + "_again", kw)[0] for (p, kw), tag in seq]
+    payloads = [next((o[4] for o in conctrace.program_of(ev) if o[1] == "read"), None) for ev in again]
+    if all(x is not None for x in payloads):
+        # the imports ran one after the other, each in an empty directory of its own: one schedule over one directory
+        conc.append(conc_case("sequential in-process imports", traces, payloads, {}, []))
+    trace_conformance(ctx, res, inputs[8][0], "gtf_inference_disabled", inputs[8][1], expect_tempfile=False)
     # solitary runs
     solo = {}
-    for i, p in enumerate(inputs):
+    for i, (p, kw) in enumerate(inputs):
         out = os.path.join(ctx.scratch, "solo%d.db" % i)
-        q = subprocess.run([py, worker, "import", p, out, "0"], stdout=subprocess.PIPE, stderr=subprocess.DEVNULL,
-                           text=True, timeout=600)
-        solo[p] = q.stdout.strip()
-        if not solo[p].startswith("ok "):
-            raise common.Infra("solitary import failed for %s" % p)
-    if os.listdir(shared):
-        res.oracle_failures.append(("a solitary import left files in the temp directory", {"left": os.listdir(shared)}))
+        q = subprocess.run(job_args(py, worker, mode="import", tmp=shared, inp=p, out=out, kwargs=kw),
+                           stdout=subprocess.PIPE, stderr=subprocess.DEVNULL, text=True, timeout=600)
+        solo[i] = q.stdout.strip()
+        if not solo[i].startswith("ok "):
+            raise common.Infra("solitary import failed for %s %r" % (p, kw))
+        if os.listdir(shared):
+            res.oracle_failures.append(("a solitary import left files in the temp directory",
+                                        {"input": p, "arguments": kw, "lines": open(p).read().split("\n")[:60],
+                                         "left": os.listdir(shared)}))
+            for f in os.listdir(shared):
+                os.unlink(os.path.join(shared, f))
+        res.evaluations += 1
     counts = sorted(set([2, max(2, ncpu // 2), min(ncpu, 12)] + ([ncpu, 2 * ncpu] if ctx.thorough else [])))
     rounds = 1 if not ctx.thorough else 3
     for rd in range(rounds):
         for n in counts:
             procs = []
             for j in range(n):
-                p = inputs[(j + rd) % len(inputs)] if j % 3 else inputs[rd % len(inputs)]   # some share the same input
+                k = (j + rd) % len(inputs) if j % 3 else rd % len(inputs)   # some share the same input
+                p, kw = inputs[k]
                 out = os.path.join(ctx.scratch, "par_%d_%d_%d.db" % (rd, n, j))
                 delay = r.choice([0, 0, 0.005, 0.01, 0.03])
-                procs.append((p, out, subprocess.Popen([py, worker, "import", p, out, str(delay)],
+                procs.append((k, out, subprocess.Popen(job_args(py, worker, mode="import", tmp=shared, inp=p, out=out,
+                                                                kwargs=kw, delay=delay),
                                                        stdout=subprocess.PIPE, stderr=subprocess.DEVNULL, text=True)))
-            for p, out, pr in procs:
+            for k, out, pr in procs:
                 try:
                     so, _ = pr.communicate(timeout=900)
                 except subprocess.TimeoutExpired:
@@ -173,10 +266,11 @@ def run(ctx):
                     raise common.Infra("concurrent import timed out")
                 res.evaluations += 1
                 res.nontriv((rd, n, out))
-                if so.strip() != solo[p]:
+                if so.strip() != solo[k]:
                     res.oracle_failures.append(("a concurrent import differs from the solitary run",
-                                                {"input": p, "processes": n, "round": rd,
-                                                 "differs_at": next((i for i, (a, b) in enumerate(zip(so, solo[p])) if a != b), -1)}))
+                                                {"input": inputs[k][0], "arguments": inputs[k][1], "processes": n, "round": rd,
+                                                 "result": so.strip()[:200],
+                                                 "differs_at": next((i for i, (a, b) in enumerate(zip(so, solo[k])) if a != b), -1)}))
             left = os.listdir(shared)
             res.count("processes_%d" % n)
             if left:
@@ -184,12 +278,94 @@ def run(ctx):
                                             {"processes": n, "left": left}))
                 for f in left:
                     os.unlink(os.path.join(shared, f))
+    # forced interleavings: import B is parked (by its text_factory, a public create_db argument sqlite calls for every
+    # text value it reads) inside _update_relations, between writing and re-reading its intermediate file; import A
+    # starts then, runs to completion, and only then B goes on.  Deterministic: no timing involved.
+    parked = [dbside.write_lines(os.path.join(ctx.scratch, "parked.gff3"),
+                                 ["##gff-version 3"] + gen_db.graph_lines(gen_db.rand_gff3_graph(r, n=12, dangling=False))),
+              dbside.write_lines(os.path.join(ctx.scratch, "parked.gtf"), gen_db.gtf_lines(
+                  [dict(ftype=ft, gene="G%d" % g, transcript="G%dT%d" % (g, t), start=100 * t + 10 * e + 1, end=100 * t + 10 * e + 8,
+                        seqid="chr1", strand="+") for g in range(2) for t in range(2) for e in range(3) for ft in ("exon", "CDS")]))]
+    shared2 = os.path.join(ctx.scratch, "shared_tmp_forced")
+    flags = os.path.join(ctx.scratch, "flags")
+    os.makedirs(shared2, exist_ok=True)
+    os.makedirs(flags, exist_ok=True)
+    for f, c in FOREIGN.items():
+        with open(os.path.join(shared2, f), "w") as fh:
+            fh.write(c)
+    solo_parked = {}
+    for bi, bp in enumerate(parked):
+        q = subprocess.run(job_args(py, worker, mode="import", tmp=shared2, inp=bp, out=os.path.join(ctx.scratch, "solo_parked%d.db" % bi),
+                                    trace=os.path.join(flags, "solo_parked%d.json" % bi)),
+                           stdout=subprocess.PIPE, stderr=subprocess.DEVNULL, text=True, timeout=600)
+        solo_parked[bi] = q.stdout.strip()
+        if not solo_parked[bi].startswith("ok "):
+            raise common.Infra("solitary import failed for %s" % bp)
+    combos = [(bi, ai) for bi in range(2) for ai in ((0, 1) if not ctx.thorough else (0, 1, 8, 9, 11))]
+    for ci, (bi, ai) in enumerate(combos):
+        tag = "forced%d" % ci
+        in_window, a_done, b_done = (os.path.join(flags, "%s_%s" % (tag, x)) for x in ("b_in_window", "a_done", "b_done"))
+        tb, ta = os.path.join(flags, tag + "_b.json"), os.path.join(flags, tag + "_a.json")
+        pb = subprocess.Popen(job_args(py, worker, mode="import", tmp=shared2, inp=parked[bi], out=os.path.join(ctx.scratch, tag + "_b.db"),
+                                       pause=[in_window, a_done], done_flag=b_done, trace=tb),
+                              stdout=subprocess.PIPE, stderr=subprocess.DEVNULL, text=True)
+        pa = subprocess.Popen(job_args(py, worker, mode="import", tmp=shared2, inp=inputs[ai][0], kwargs=inputs[ai][1],
+                                       out=os.path.join(ctx.scratch, tag + "_a.db"), wait_for=[in_window, b_done],
+                                       done_flag=a_done, trace=ta),
+                              stdout=subprocess.PIPE, stderr=subprocess.DEVNULL, text=True)
+        try:
+            so_a, _ = pa.communicate(timeout=300)
+            so_b, _ = pb.communicate(timeout=300)
+        except subprocess.TimeoutExpired:
+            pa.kill(); pb.kill()
+            raise common.Infra("forced interleaving timed out")
+        res.evaluations += 2
+        res.nontriv(("forced", bi, ai))
+        describe = {"parked_import": parked[bi], "parked_lines": open(parked[bi]).read().split("\n"),
+                    "other_import": inputs[ai][0], "other_arguments": inputs[ai][1],
+                    "other_lines": open(inputs[ai][0]).read().split("\n")[:60]}
+        if so_b.strip() != solo_parked[bi]:
+            res.oracle_failures.append(("an import that was between writing and re-reading its intermediate file while another "
+                                        "import ran to completion differs from the solitary run",
+                                        dict(describe, result=so_b.strip()[:300])))
+        if so_a.strip() != solo[ai]:
+            res.oracle_failures.append(("an import that ran while another import was parked inside its temp-file pass differs "
+                                        "from the solitary run", dict(describe, result=so_a.strip()[:300])))
+        final = read_dir(shared2)
+        left = [f for f, _ in final if f not in FOREIGN]
+        if left:
+            res.oracle_failures.append(("intermediate files left in the shared temp directory after the forced interleaving",
+                                        dict(describe, left=left)))
+            for f in left:
+                os.unlink(os.path.join(shared2, f))
+        try:
+            tr_b, tr_a = json.load(open(tb)), json.load(open(ta))
+            tr_solo = json.load(open(os.path.join(flags, "solo_parked%d.json" % bi)))
+        except (OSError, ValueError):
+            raise common.Infra("forced interleaving: trace file missing")
+        ob, oa = conctrace.program_of(tr_b), conctrace.program_of(tr_a)
+        tw = next((o[0] for o in ob if o[1] == "write"), None)
+        trd = next((o[0] for o in ob if o[1] == "read"), None)
+        inside = bool(oa) and tw is not None and trd is not None and all(tw < o[0] < trd for o in oa)
+        res.count("forced_interleaving_" + ("achieved" if inside else "second import has no temp-file pass" if not oa else "NOT_achieved"))
+        # the same run through the model: process 0 = parked import, process 1 = the other one
+        pay_b = next((o[4] for o in conctrace.program_of(tr_solo) if o[1] == "read"), None)
+        pay_a = payloads[ai] if ai in (0, 1) else None
+        if pay_a is None and oa:
+            pay_a = next((o[4] for o in oa if o[1] == "read"), None)
+        if pay_b is not None and (pay_a is not None or not oa):
+            trs = [tr_b] + ([tr_a] if oa else [])
+            conc.append(conc_case("forced interleaving %r" % describe["parked_import"], trs,
+                                  [pay_b] + ([pay_a] if oa else []), FOREIGN, final))
+        for f, c in FOREIGN.items():            # whatever happened, the next combination starts from the same directory
+            with open(os.path.join(shared2, f), "w") as fh:
+                fh.write(c)
     # workers FORKED from this process (gffutils already imported here): module-level state is inherited by the children
     import tempfile
     import gffutils
 
     def forked_import(args):
-        path, out, delay = args
+        path, kw, out, delay = args
         import time as _t
         _t.sleep(delay)
         tempfile.tempdir = shared
@@ -197,7 +373,7 @@ def run(ctx):
         import warnings as _w
         _w.simplefilter("ignore")
         try:
-            d = gffutils.create_db(path, out, force=True, merge_strategy="create_unique")
+            d = gffutils.create_db(path, out, force=True, merge_strategy="create_unique", **kw)
             d.conn.commit()
             return dbside.dump(gffutils.FeatureDB(out))
         except Exception as ex:
@@ -210,10 +386,10 @@ def run(ctx):
         old_td = tempfile.tempdir
         for rd in range(1 if not ctx.thorough else 4):
             n = min(ncpu, 8)
-            jobs = [(inputs[(j + rd) % len(inputs)], os.path.join(ctx.scratch, "fork_%d_%d.db" % (rd, j)), r.choice([0, 0, 0.005]))
+            jobs = [((j + rd) % len(inputs), os.path.join(ctx.scratch, "fork_%d_%d.db" % (rd, j)), r.choice([0, 0, 0.005]))
                     for j in range(n)]
             def child(job):
-                so_ = forked_import(job)
+                so_ = forked_import((inputs[job[0]][0], inputs[job[0]][1], job[1], job[2]))
                 with open(job[1] + ".dump", "w") as fh_:
                     fh_.write(so_)
             procs_ = [fctx.Process(target=child, args=(job,)) for job in jobs]
@@ -227,12 +403,12 @@ def run(ctx):
                     outs.append(open(job[1] + ".dump").read())
                 except OSError:
                     outs.append("worker died")
-            for (p_, out_, _), so in zip(jobs, outs):
+            for (k_, out_, _), so in zip(jobs, outs):
                 res.evaluations += 1
                 res.nontriv(("fork", rd, out_))
-                if so != solo[p_]:
+                if so != solo[k_]:
                     res.oracle_failures.append(("an import in a forked worker differs from the solitary run",
-                                                {"input": p_, "workers": n, "result": so[:200]}))
+                                                {"input": inputs[k_][0], "arguments": inputs[k_][1], "workers": n, "result": so[:200]}))
             left = os.listdir(shared)
             res.count("forked_workers_%d" % n)
             if left:
@@ -245,8 +421,8 @@ def run(ctx):
     # concurrent readers
     for k in ([2, 6] if not ctx.thorough else [2, 8, ncpu, 2 * ncpu]):
         target = os.path.join(ctx.scratch, "solo0.db")
-        want = solo[inputs[0]]
-        procs = [subprocess.Popen([py, worker, "read", target, "-", "0"], stdout=subprocess.PIPE,
+        want = solo[0]
+        procs = [subprocess.Popen(job_args(py, worker, mode="read", tmp=shared, inp=target), stdout=subprocess.PIPE,
                                   stderr=subprocess.DEVNULL, text=True) for _ in range(k)]
         for pr in procs:
             so, _ = pr.communicate(timeout=600)
@@ -267,9 +443,23 @@ def run(ctx):
         tempfile.tempdir = old
     if os.listdir(d15):
         res.known_hits["D15"] = {"left": os.listdir(d15)}
-    res.sample({"process_counts": counts, "rounds": rounds, "inputs": [os.path.basename(p) for p in inputs]})
+    # the recorded real traces replayed through Conc.step (GffModel/Conc.lean): directory and held names after every
+    # step, final directory, what every process read back, all finished
+    out = ctx.model([c[1] for c in conc])
+    if out is not None:
+        for (label, cmd, want, schedule), got in zip(conc, out):
+            res.corr_checked += 1
+            if got != want:
+                res.corr_disagreements.append(("Conc.step replay of a real schedule (%s)" % label, repr(schedule)[:700],
+                                               got[:900], want[:900]))
+    res.extra["conc_schedules"] = [{"label": c[0], "schedule": [list(x) for x in c[3]]} for c in conc][:6]
+    res.sample({"process_counts": counts, "rounds": rounds,
+                "inputs": [(os.path.basename(p), kw) for p, kw in inputs]})
     res.assumptions = ["imports take their input from a path (the from_string form leaks its own copy: known finding D15)",
-                       "separate output files; one shared TMPDIR"]
+                       "separate output files; one shared TMPDIR",
+                       "Conc replay: one intermediate file per import (the one it opens for writing); the model's atomic "
+                       "`write` is the open-for-writing of the real run, so only NAMES are compared while imports are under "
+                       "way, contents at the read-back and at the end"]
     return res
 
 
